@@ -4,6 +4,7 @@ import (
 	"fmt"
 	"go/ast"
 	"go/constant"
+	"go/token"
 	"go/types"
 	"sort"
 	"strings"
@@ -122,11 +123,37 @@ func (e *Enum) setIsIota() {
 // fetchConstComment retrieve the comment, not exposed in go/types
 func fetchConstComment(pa *packages.Package, obj *types.Const) string {
 	node := nodeAt(pa, obj.Pos())
-	spec := node.(*ast.ValueSpec)
+	spec, ok := node.(*ast.ValueSpec)
+	if !ok {
+		// in a multi-name spec (const A, B T = 0, 1), only the first name
+		// starts at the spec position : look for the enclosing spec
+		spec = valueSpecAt(pa, obj.Pos())
+		if spec == nil {
+			return ""
+		}
+	}
 	if spec.Comment == nil {
 		return ""
 	}
 	return strings.TrimSpace(spec.Comment.Text())
+}
+
+// valueSpecAt returns the const/var spec containing [pos], or nil
+func valueSpecAt(pa *packages.Package, pos token.Pos) (out *ast.ValueSpec) {
+	declFile := pa.Fset.File(pos)
+	for _, file := range pa.Syntax {
+		if pa.Fset.File(file.Pos()) != declFile {
+			continue
+		}
+		ast.Inspect(file, func(n ast.Node) bool {
+			if spec, isSpec := n.(*ast.ValueSpec); isSpec && spec.Pos() <= pos && pos < spec.End() {
+				out = spec
+				return false
+			}
+			return out == nil
+		})
+	}
+	return out
 }
 
 // fetchPkgEnums walks through all the constants defined by the given package
